@@ -135,6 +135,42 @@ static void run_marks(uint64_t idx, pv_rng* rng) {
     g_skip_too_long = true; try_token(L, w, &t, pv_randn(rng, 3) == 0, "many-marks", rng, idx * 4 + 2); g_skip_too_long = false;      /* rot % 4 == 2: the automatic decoder sees it too */
 }
 
+
+/* ---------------------------------------------------------------- what comes late in a long input still counts
+ * The library hands the caller's whole string to the normaliser, however long; what it gets back is what it decodes.  A Spanish or
+ * French phrase whose last word carries thousands of redundant accents is several thousand bytes long; with one stray byte at its
+ * very end a strict normaliser (one that answers ill-formed input with an empty string) returns nothing, so both decoders must see
+ * an empty phrase - unless the library looked at a shortened copy and never showed the end of the string to the normaliser */
+static uint64_t n_tail(void) { return pv_scaled(60, 3000); }
+static void run_tail(uint64_t idx, pv_rng* rng) {
+    pv_mlang* L = pv_lang_by_name((idx & 1) ? "Spanish" : "French");
+    if (!L || !L->lib) return;
+    static const int MS[] = { 300, 700, 1100, 1200, 1500, 2500, 6000 };
+    int M = MS[(idx / 2) % (sizeof MS / sizeof *MS)];
+    pv_mseed m; pv_gen_mseed(rng, 7, true, &m); unsigned coin = pv_gen_coin(rng), d[16]; pv_m_coeffs(&m, coin, d);
+    char* buf = pv_xmalloc(4096 + 2 * (size_t)M + 8); size_t k = 0;
+    for (int i = 0; i < 16; ++i) { size_t l = strlen(L->word[d[i]]); memcpy(buf + k, L->word[d[i]], l); k += l; if (i < 15) buf[k++] = ' '; }
+    buf[k] = 0; if (!pv_utf8_valid(buf)) pv_fatal("C08: list word is not UTF-8");
+    bool nonascii_early = false; for (size_t i = 0; i < k; ++i) if ((unsigned char)buf[i] & 0x80) nonascii_early = true;
+    for (int q = 0; q < M; ++q) { buf[k++] = (char)0xCC; buf[k++] = (char)0x81; }
+    static const uint8_t STRAY[] = { 0xFF, 0xE9, 0xC3, 0xA0 };
+    buf[k++] = (char)STRAY[idx % 4]; buf[k] = 0;
+    (void)nonascii_early;
+    char* in = pv_exact_str(buf); free(buf);
+    pv_w->norm_invalid_empty = 1;
+    polyseed_data* s = NULL; int st = pv_api_decode_explicit(in, coin, L->lib, &s);
+    polyseed_data* a = NULL; const polyseed_lang* lo = NULL; int sa = pv_api_decode(in, coin, &lo, &a);
+    pv_w->norm_invalid_empty = 0;
+    PV_COUNT("evaluations", 2);
+    bool ok = true;
+    if (st != POLYSEED_ERR_NUM_WORDS) { ok = false; pv_violation("C08/long-input/end-of-string-not-shown-to-the-normaliser", "%s: a %zu-byte phrase (last word with %d redundant accents, one stray byte at the end) and a normaliser that answers ill-formed input with an empty string: decode_explicit -> %s", L->name_en, strlen(in), M, pv_status_name(st)); }
+    if (sa != POLYSEED_ERR_NUM_WORDS) { ok = false; pv_violation("C08/auto/long-input/end-of-string-not-shown-to-the-normaliser", "%s: %zu-byte phrase, strict normaliser: polyseed_decode -> %s", L->name_en, strlen(in), pv_status_name(sa)); }
+    if (st == POLYSEED_OK) pv_api_free(s);
+    if (sa == POLYSEED_OK) pv_api_free(a);
+    if (ok) { pv_countf(1, "tail.strict_normaliser_saw_the_end_of_a_long_input.%d_marks", M); PV_DISTINCT("nontrivial", pv_mix(pv_hash_str(in), idx)); }
+    free(in);
+}
+
 /* ---------------------------------------------------------------- exhaustive per word */
 #define WBLK 32
 static uint64_t n_words(void) { return (uint64_t)pv_nlangs * (PV_NWORDS / WBLK); }
@@ -307,6 +343,6 @@ static void run_long(uint64_t idx, pv_rng* rng) {
 
 static void fini(void) { pv_set_flag("exhaustive.per_word_variants(es,fr,en always; all languages in thorough)", true); }
 int main(int argc, char** argv) {
-    static const pv_section secs[] = { { "words", n_words, run_words }, { "mixed", n_mixed, run_mixed }, { "long", n_long, run_long }, { "marks", n_marks, run_marks } };
-    return pv_main(argc, argv, "C08", secs, 4, init, fini);
+    static const pv_section secs[] = { { "words", n_words, run_words }, { "mixed", n_mixed, run_mixed }, { "long", n_long, run_long }, { "marks", n_marks, run_marks }, { "tail", n_tail, run_tail } };
+    return pv_main(argc, argv, "C08", secs, 5, init, fini);
 }
